@@ -32,10 +32,12 @@ Theorem C10_failed_task_changes_nothing : forall c now ts m errs evs t x,
 Proof. intros c now ts m errs evs t x E. cbn [exec_all]. rewrite E. reflexivity. Qed.
 Print Assumptions C10_failed_task_changes_nothing.
 
-(* "files not affected by the fault still end up correct": Model/EngineFaults.v lets the transfer of ANY set of source entries fail
-   for reasons outside the model (an errno at some system call: [flt]), leaving anything at the failing file's own path ([junk]:
-   the old file, a partial one, nothing).  Whatever fails -- injected or for the reasons Engine.v knows -- every selected entry
-   for which no error is recorded satisfies the C01 postcondition, and with no fault injected the run is Engine.run *)
+(* "files not affected by the fault still end up correct": Model/EngineFaults.v lets ANY set of tasks fail for reasons outside the
+   model (an errno at some system call: [flt]) -- the transfer of a source entry, leaving anything at the failing file's own path
+   ([junk]: the old file, a partial one, nothing), or the DELETION of a stale entry, which leaves the entry and, below a directory
+   whose removal stopped half-way, an arbitrary part of its contents.  Whatever fails -- injected or for the reasons Engine.v knows --
+   every selected entry for which no error is recorded satisfies the C01 postcondition, and with no fault injected the run is
+   Engine.run *)
 Theorem C10_unaffected_entries_correct : forall flt junk refuse ds c now U keep src dst,
   src_wf src -> c_dry_run c = false -> dst [] = None ->
   let r := run_f flt junk refuse ds c now U keep src dst in
@@ -43,6 +45,31 @@ Theorem C10_unaffected_entries_correct : forall flt junk refuse ds c now U keep 
   forall e, In e src -> (forall a x, ~ In (se_path e, a, x) (r_errors r)) -> post c ds now dst (r_fs r) e.
 Proof. exact run_f_post. Qed.
 Print Assumptions C10_unaffected_entries_correct.
+
+(* "the failure is visible": an injected fault on the path of any task of the run -- a selected source entry, or an entry planned
+   for deletion -- is in the error list, and the exit status is 1 *)
+Theorem C10_injected_fault_is_visible : forall flt junk refuse ds c now U keep src dst p x,
+  c_dry_run c = false ->
+  let r := run_f flt junk refuse ds c now U keep src dst in
+  r_refused r = false ->
+  flt p = Some x ->
+  (In p (map se_path src) \/ (c_delete c = true /\ In p (map t_path (plan_deletions (keep ++ src) (filter (fun q => match dst q with Some _ => true | None => false end) U))))) ->
+  (exists a y, In (p, a, y) (r_errors r)) /\ exit_status c r = 1%Z.
+Proof. exact run_f_fault_visible. Qed.
+Print Assumptions C10_injected_fault_is_visible.
+
+(* a failing deletion: the removal of the stale directory [9] stops half-way (its entry [9;1] is gone, [9;2] is left), the
+   selected file is still transferred, the failure is recorded, the exit status is 1; the later task of [9;2] removes it *)
+Example C10_injected_deletion_fault :
+  let c := mk_cfg true true 50 false false false false 100 100 in
+  let src := [mk_sentry [1%N] false 5 1000%Z 7 false] in
+  let dst : fs := fun p => if peqb p [9%N] then Some Dir else if peqb p [9%N; 1%N] then Some (File 1 1 1%Z) else if peqb p [9%N; 2%N] then Some (File 2 2 2%Z) else None in
+  let flt := fun p => if peqb p [9%N] then Some E_NoEnt else None in
+  let junk := fun p => if peqb p [9%N; 2%N] then Some (File 2 2 2%Z) else None in
+  let r := run_f flt junk (fun _ _ _ => false) (fun _ => (0%N, 0%Z)) c 9%Z [[9%N]; [9%N; 1%N]; [9%N; 2%N]] [] src dst in
+  r_errors r = [([9%N], ADelete, E_NoEnt)] /\ r_fs r [1%N] = Some (File 7 5 1000%Z) /\ r_fs r [9%N] = Some Dir /\
+  r_fs r [9%N; 1%N] = None /\ r_fs r [9%N; 2%N] = None /\ exit_status c r = 1%Z.
+Proof. vm_compute. repeat split. Qed.
 
 Theorem C10_no_fault_is_the_engine : forall junk refuse ds c now U keep src dst,
   run_f (fun _ => None) junk refuse ds c now U keep src dst = run refuse ds c now U keep src dst.
